@@ -112,9 +112,11 @@ def choose_classes(ctx, classes, per_shape):
         pick = ints[:1] + rest[:max(0, per_shape - 1)]
         chosen[sk] = pick
     if per_shape is not None:
-        wide3 = sorted(sk for sk in by_shape if sk.startswith("3/"))
+        # every name set and every type set at least once on a WIDEST shape (3 parameters, 3 results: every parameter and
+        # result position of the set is exercised), for both parameter styles (fixed / variadic) for the type sets
+        wide3 = sorted(sk for sk in by_shape if sk.startswith("3/") and sk.endswith("/3"))
         for dim in ("names", "types"):
-            have = {c[dim] for l in chosen.values() for c in l if c["shape"]["ar"] >= 2}
+            have = {c[dim] for sk, l in chosen.items() for c in l if sk in wide3}
             for val in sorted({c[dim] for c in classes} - have):
                 sk = ctx.rng.choice(wide3)
                 cand = [x for x in sorted(by_shape[sk], key=lambda c: (c["names"], c["types"])) if x[dim] == val]
@@ -509,6 +511,9 @@ def run(ctx):
         fix_ = [s for s in deep if not s["var"] and s["ar"] >= 2 and s["nres"] >= 1]
         rest = [s for s in deep if s not in var_ and s not in fix_]
         ctx.rng.shuffle(var_), ctx.rng.shuffle(fix_), ctx.rng.shuffle(rest)
+        if not thorough:     # the two widest shapes carry the per-name-set / per-type-set coverage classes: keep them shallow in quick
+            var_ = [s for s in var_ if not (s["ar"] == 3 and s["nres"] == 3)]
+            fix_ = [s for s in fix_ if not (s["ar"] == 3 and s["nres"] == 3)]
         deep = (var_[:4] + fix_[:5] + rest[:3]) if thorough else [var_[0], fix_[0]]
     mc = mc_module("MatryerMockRun", deep)
     chunks = ["Opts00", "Opts01", "Opts10", "Opts11"]
